@@ -118,7 +118,8 @@ def timerCheck (cfg : Cfg) (w : W) (r : Role) (a : WAct) (before after : Spec.S)
   match tmOf st r' with
   | none => if after.get r' = .idle then none else some "timer-probe-missing"
   | some tm =>
-      if after.get r' = .idle then some "timer-probe-of-closed-connection"
+      if tm.emptySlot then some "timer-collection-empty"
+      else if after.get r' = .idle then some "timer-probe-of-closed-connection"
       else if ¬ confirmed (after.get r') then
         -- OpenSent: the property does not fix the initial timer; the keepalive timer must not run
         if tm.ka ≠ none then some "keepalive-timer-before-open-exchange" else none
@@ -146,6 +147,9 @@ def timerCheck (cfg : Cfg) (w : W) (r : Role) (a : WAct) (before after : Spec.S)
 def stepOk (cfg : Cfg) (frames timers : Bool) (w : W) (r : Role) (a : WAct) (st : WStep) :
     Except String W :=
   let cur := w.s.get r
+  match st.anomalies with
+  | e :: _ => .error e
+  | [] =>
   match st.kind with
   | .refused =>
       if a ≠ .connect then .error "malformed-observation"
